@@ -210,7 +210,8 @@ pub fn run_check(
             eprintln!("bad replay file: {e}");
             std::process::exit(2);
         });
-        match replay(&v["replay"]) {
+        crate::util::install_quiet_panic_hook();
+        match crate::util::guard(|| replay(&v["replay"])).and_then(|r| r) {
             Ok(()) => {
                 println!("replay: property {} holds on this case (no violation)", property);
                 std::process::exit(0);
@@ -223,7 +224,14 @@ pub fn run_check(
         }
     }
 
-    let outcome = main(&ctx);
+    crate::util::install_quiet_panic_hook();
+    let outcome = match std::panic::catch_unwind(std::panic::AssertUnwindSafe(|| main(&ctx))) {
+        Ok(o) => o,
+        Err(_) => {
+            println!("MACHINERY ERROR: the check itself panicked: {}", crate::util::last_panic());
+            std::process::exit(2);
+        }
+    };
     let known = load_known();
     let mut unlisted = 0u64;
     let mut known_hits = vec![];
